@@ -30,13 +30,20 @@ JudgeAll(os, k, tr) ==
         Tag(JudgeObs(a, b, igs, os[k].ab, tr), k, "ab") \o Tag(JudgeObs(b, a, igs, os[k].ba, tr), k, "ba")
         \o JudgeAll(os, k + 1, tr)
 
+JudgeRefl(r) == IF r.pan THEN <<[kind |-> "panic", loc |-> <<"reflexive">>]>>
+                ELSE (IF r.d # <<>> THEN <<[kind |-> "not-reflexive", loc |-> <<"diff">>]>> ELSE <<>>)
+                     \o (IF r.c # <<>> THEN <<[kind |-> "not-reflexive", loc |-> <<"compare">>]>> ELSE <<>>)
+                     \o (IF ~r.m THEN <<[kind |-> "not-reflexive", loc |-> <<"match">>]>> ELSE <<>>)
+
 CheckDiff ==
    /\ phase = "check"
    /\ LET L  == Log[c]
           tr == Truth(a, b, <<>>)
           j  == (IF L.mpan THEN Tag(<<[kind |-> "panic", loc |-> <<"match">>]>>, 0, "ab")
                  ELSE Tag(JudgeMatch(a, b, L.mab), 0, "ab") \o Tag(JudgeMatch(b, a, L.mba), 0, "ba"))
-                \o JudgeAll(L.o, 1, tr) IN
+                \o JudgeAll(L.o, 1, tr)
+                \* Reflexive: every logged tree against an equal, separately built tree (no ignores)
+                \o Tag(JudgeRefl(L.ra), 0, "aa") \o Tag(JudgeRefl(L.rb), 0, "bb") IN
       /\ (j = <<>> \/ Len(TLCGet(1)) >= MaxBad \/ TLCSet(1, TLCGet(1) \o j))
       /\ (j = <<>> \/ TLCSet(3, TLCGet(3) + Len(j)))
    /\ TLCSet(2, c)
